@@ -198,6 +198,7 @@ type filler struct {
 	mode    Mode
 	counter uint64
 	maxLen  int
+	bigLeft int // byte slices that may still get a length around and beyond 2^15
 }
 
 func (f *filler) uintFor(bits int) uint64 {
@@ -319,6 +320,10 @@ func (f *filler) fill(v reflect.Value, top bool) {
 		}
 	case reflect.Slice:
 		n := f.length()
+		if f.bigLeft > 0 && t.Elem().Kind() == reflect.Uint8 && f.rng.IntN(2) == 0 {
+			f.bigLeft--
+			n = []int{32767, 32768, 32769, 32760 + f.rng.IntN(25000)}[f.rng.IntN(4)]
+		}
 		if t.Elem().Kind() == reflect.Uint16 {
 			n = n % 231 // word arrays (setup words) count against the 255-word parameter block
 		}
@@ -358,6 +363,9 @@ func (f *filler) fill(v reflect.Value, top bool) {
 func Fill(c ci.CommandInterface, rels []Relation, rng *rand.Rand, mode Mode, maxLen int) (unconstrained []string) {
 	v := reflect.ValueOf(c).Elem()
 	f := &filler{rng: rng, mode: mode, maxLen: maxLen}
+	if maxLen < 0 { // size class "one buffer of 32 KiB and more", everything else small
+		f.maxLen, f.bigLeft = 40, 1
+	}
 	f.fill(v, true)
 	if wc := v.FieldByName("WordCount"); wc.IsValid() && wc.Kind() == reflect.Uint8 {
 		wc.SetUint(0) // mirrors the framing count byte: not a free field
